@@ -232,6 +232,9 @@ def run(res: Results, idx: Index, tier: str) -> None:
     # ---------------- R-C17d
     _rule_d(res, idx)
 
+    # ---------------- R-C17e  (range proof ingredients)
+    _rule_e(res, idx, m, dts)
+
     # positive control: a permissive predicate must be caught by the reference
     res.control("R-C17b", "reference rejects INT32->FLOAT->INT32, FLOAT->FLOAT16->FLOAT, INT64->DOUBLE->INT64, UINT8->INT8->UINT8, DOUBLE->COMPLEX64",
                 reference_preserving(dts["INT32"], dts["FLOAT"]) is False and reference_preserving(dts["FLOAT"], dts["FLOAT16"]) is False
@@ -239,6 +242,74 @@ def run(res: Results, idx: Index, tier: str) -> None:
                 and reference_preserving(dts["DOUBLE"], dts["COMPLEX64"]) is False
                 and reference_preserving(dts["INT16"], dts["FLOAT"]) is True and reference_preserving(dts["FLOAT16"], dts["FLOAT"]) is True
                 and reference_preserving(dts["BFLOAT16"], dts["FLOAT16"]) is False and reference_preserving(dts["FLOAT16"], dts["BFLOAT16"]) is False)
+
+
+# ops whose output elements are all elements of their first input (so integer bounds carry over)
+VALUE_SET_PRESERVING = {
+    "Identity", "Reshape", "Flatten", "Squeeze", "Unsqueeze", "Transpose", "Expand", "Tile", "Slice",
+    "DepthToSpace", "SpaceToDepth", "ReverseSequence",
+}
+
+
+def _rule_e(res: Results, idx: Index, m, dts) -> None:
+    res.rule("R-C17e", "range-proof ingredients: the pass-through operator set only contains value-set preserving ops; the Range closed form bounds every emitted value (bounded box)", floor=8)
+    ops = m.consts.get("_INTEGER_VALUE_PRESERVING_OPS")
+    if not isinstance(ops, frozenset):
+        raise AnalysisError("_INTEGER_VALUE_PRESERVING_OPS is no longer a constant set")
+    for op in sorted(ops):
+        key = f"_INTEGER_VALUE_PRESERVING_OPS::{op}"
+        if op in VALUE_SET_PRESERVING:
+            res.ok("R-C17e", f"{OPT}:1", key, "every output element is an element of the first input", "")
+        else:
+            res.violation("R-C17e", f"{OPT}:1", key, f"{op} can produce values that are not elements of its first input: integer bounds proven for the input do not hold for its output, so a narrowing Cast pair could be dropped unsoundly", "")
+    f = idx.func(OPT, "_known_integer_value_bounds")
+    anchor = None
+    for n in f.node.body:  # type: ignore[attr-defined]
+        if isinstance(n, ast.Assign) and isinstance(n.targets[0], ast.Tuple) and [getattr(e, "id", None) for e in n.targets[0].elts] == ["start", "limit", "delta"]:
+            anchor = n
+    key = "_known_integer_value_bounds::range-closed-form"
+    if anchor is None:
+        res.unresolved("R-C17e", f"{OPT}:{f.node.lineno}", key, "`start, limit, delta = …` not found at function level", f.qualname)
+        return
+    tail = f.node.body[f.node.body.index(anchor) + 1:]  # type: ignore[attr-defined]
+    from ..symeval import _Return
+    ev = Evaluator(idx, dts)
+    bad = None
+    n = 0
+    try:
+        for start in range(-7, 8):
+            for limit in range(-7, 8):
+                for delta in range(-4, 5):
+                    n += 1
+                    env = {"start": start, "limit": limit, "delta": delta}
+                    try:
+                        ev.block(tail, env, f, 0)
+                        out = None
+                    except _Return as r:
+                        out = r.value
+                    actual = list(range(start, limit, delta)) if delta != 0 else None
+                    if out is None:
+                        continue  # no proof claimed
+                    if delta == 0:
+                        bad = (start, limit, delta, out, "delta == 0 has no defined range")
+                        break
+                    lo, hi = out
+                    if actual and not (lo <= min(actual) and max(actual) <= hi):
+                        bad = (start, limit, delta, out, f"emitted values {min(actual)}..{max(actual)}")
+                        break
+                    if not actual and lo <= hi and False:
+                        pass
+                if bad:
+                    break
+            if bad:
+                break
+    except Unsupported as e:
+        res.unresolved("R-C17e", f"{OPT}:{anchor.lineno}", key, f"closed form outside the evaluator's subset: {e}", f.qualname)
+        return
+    if bad:
+        res.violation("R-C17e", f"{OPT}:{anchor.lineno}", key, f"Range(start={bad[0]}, limit={bad[1]}, delta={bad[2]}) is claimed to lie in {bad[3]} but {bad[4]}", f.qualname)
+    else:
+        res.ok("R-C17e", f"{OPT}:{anchor.lineno}", key, f"bounds contain every emitted value for all {n} triples in [-7,7]^2 x [-4,4]", f.qualname)
 
 
 def _rule_d(res: Results, idx: Index) -> None:
